@@ -945,3 +945,82 @@ def c04_default_strand_level(tier, rng):
                              "observed": str(got), "required": explicit or "only_canonical or only_stranded"})
     return {"obligations": obl, "discharged": dis, "violations": viol[:4], "cases": obl, "exhaustive": True,
             "bound": "8 strategies x {default, only_canonical, only_stranded}", "samples": [{"model_construction_strategy": "all", "default": str(default)}]}
+
+
+# ---- novel mono-exon models: reads are registered for models that exist ---------------------------------------------------------------------------------
+def _monoexon_registration_problems(seed):
+    """the real generate_monoexon_from_clustered on random clusters of tailed unspliced reads next to 0-2 existing models (clusters inside an
+    exon of an existing model, overlapping it by half, or apart from it; counts around min_novel_count): every read registered for a
+    transcript id is registered for a model in transcript_model_storage, a reported model has at least min_novel_count reads, all of its
+    cluster, and spans them"""
+    import random
+    import types
+    from collections import defaultdict
+    gm = native.repo_import("src/graph_based_model_construction.py")
+    gi = native.repo_import("src/gene_info.py")
+    idp = native.repo_import("src/id_policy.py")
+    rng = random.Random(seed)
+    problems = []
+    for _ in range(30):
+        c = gm.GraphBasedModelConstructor.__new__(gm.GraphBasedModelConstructor)
+        c.params = types.SimpleNamespace(min_novel_count=rng.choice([1, 2, 3]))
+        c.gene_info = types.SimpleNamespace(chr_id="chr1")
+        c.id_distributor = idp.SimpleIDDistributor()
+        c.transcript_read_ids, c.internal_counter, c.read_assignment_counts = defaultdict(list), defaultdict(int), defaultdict(int)
+        existing = []
+        for k in range(rng.randint(0, 2)):
+            a = 1000 + 3000 * k
+            existing.append(gi.TranscriptModel("chr1", "+", "old%d" % k, "g", [(a, a + 600), (a + 1200, a + 1500)], gi.TranscriptModelType.novel_not_in_catalog))
+        c.transcript_model_storage = list(existing)
+        forward = rng.random() < .5
+        clusters = {}
+        rid = 0
+        for k in range(rng.randint(1, 3)):
+            anchor = rng.choice([1100, 1350, 1650, 2300, 4100, 8000]) + rng.randint(0, 40)
+            ln = rng.choice([200, 300, 500, 900])
+            reads = []
+            for _r in range(rng.randint(1, 4)):
+                s_, e_ = (anchor - ln - rng.randint(0, 30), anchor) if forward else (anchor, anchor + ln + rng.randint(0, 30))
+                reads.append(types.SimpleNamespace(read_id="r%d" % rid, corrected_exons=[(s_, e_)]))
+                rid += 1
+            clusters.setdefault(anchor, []).extend(reads)
+        before = len(c.transcript_model_storage)
+        c.generate_monoexon_from_clustered(clusters, forward)
+        models = {m.transcript_id: m for m in c.transcript_model_storage}
+        tag = "min_novel_count %d, existing %s, clusters %s" % (c.params.min_novel_count, [m.exon_blocks for m in existing],
+                                                                 {k: [r.corrected_exons[0] for r in v] for k, v in clusters.items()})
+        for tid, reads in c.transcript_read_ids.items():
+            if reads and tid not in models:
+                problems.append("%s: %d reads are registered for %s, which is not among the models %s" % (tag, len(reads), tid, sorted(models)))
+        for m in c.transcript_model_storage[before:]:
+            reads = c.transcript_read_ids.get(m.transcript_id, [])
+            if len(reads) < c.params.min_novel_count:
+                problems.append("%s: model %s %s has %d reads" % (tag, m.transcript_id, m.exon_blocks, len(reads)))
+            if any(r.corrected_exons[0][0] < m.exon_blocks[0][0] or r.corrected_exons[-1][1] > m.exon_blocks[-1][1] for r in reads):
+                problems.append("%s: model %s %s does not span its reads" % (tag, m.transcript_id, m.exon_blocks))
+        if problems:
+            break
+    return problems
+
+
+def replay_monoexon_registration(d):
+    p = _monoexon_registration_problems(d["inputs"]["seed"])
+    return (not p), "seed %s: %s" % (d["inputs"]["seed"], p[:2] or "reads registered for existing models only")
+
+
+@bounded("C04.monoexon_registration", ["C04"], note="the real GraphBasedModelConstructor.generate_monoexon_from_clustered on random clusters of tailed unspliced reads "
+         "next to 0-2 existing models (inside an exon of a model, overlapping it, apart from it; counts around min_novel_count): reads are registered "
+         "only for transcripts that are in the model storage, a new model has at least min_novel_count reads and spans them")
+def c04_monoexon_registration(tier, rng):
+    n = 40 if tier == "quick" else 1500
+    base = rng.randrange(10 ** 9)
+    for k in range(n):
+        try:
+            p = _monoexon_registration_problems(base + k)
+        except Exception as e:
+            p = ["exception %s: %s" % (type(e).__name__, e)]
+        if p:
+            return {"cases": (k + 1) * 30, "bound": "random clusters", "violations": [{
+                "obligation": "C04.monoexon_registration", "inputs": {"seed": base + k}, "observed": p[:2],
+                "required": "transcript_model_reads references only reported transcripts", "replay_call": "contracts.c_novel:replay_monoexon_registration"}]}
+    return {"cases": n * 30, "bound": "%d x 30 random cluster sets" % n, "violations": [], "samples": [{"seed": base}]}
